@@ -4,10 +4,11 @@ Require Import ExtrOcamlBasic.
    shared zutil.ml / exprio.ml; the standard ExtrOcamlString maps ascii -> char, string -> char list *)
 Require Import ExtrOcamlString.
 From Coq Require Import ZArith List String.
-Require Import Cspuz.Lib.PyErr Cspuz.Core.Expr Cspuz.Core.Program Cspuz.Backend.SugarText Cspuz.Backend.Sugar Cspuz.Backend.SugarReply Cspuz.Backend.SugarGraphSem .
+Require Import Cspuz.Lib.PyErr Cspuz.Core.Expr Cspuz.Core.Program Cspuz.Backend.SugarText Cspuz.Backend.Sugar Cspuz.Backend.SugarReply Cspuz.Backend.SugarGraphSem Cspuz.Backend.SugarHistory .
 Extraction "model.ml" Z.add Nat.add pyerr_code eval vars
   print_expr print_var description description_k parse_answer parse_deduction key_names
   native_deduction uses_subprocess entry_point
   sx_parse sx_parse_all sugar_sem decl_of_sexp sugar_decls sugar_constraints java_load java_reply
   format_answer format_deduction graph_sem
+  history_description
   py_int strip split_on contains pz.
